@@ -9,7 +9,7 @@ SPEC = {
                                 64: "C14-unknown-error-type-answered",
                                 128: "C14-gateway-answers-scmp-error",
                                 256: "C14-unknown-error-type-not-reported"}}],
-    "rule": "direct layout calls (n, h boundary-directed around 1232 - h - HEADER, h up to 2^40); SCMP errors of all five kinds through ScionScmpPacket::try_encode_to_vec over every address/path combination with offending packets 0..9216 B placed around the truncation point; the SNAP gateway's create_scmp_error on inbound datagrams failing its check; DefaultEchoHandler on hand-built received packets (every SCMP type/code, truncations, wrong checksums, error quoting an error, odd addresses/paths, non-SCMP); pocketscion's local simulator with every error kind, local dispatch, and its router answering echo/traceroute requests (handle_scmp); the socket receive loop with the real ScmpErrorHandler on mixed UDP/SCMP streams. Distinct by full case text; every case is non-trivial (it runs the implementation).",
+    "rule": "direct layout calls (n, h boundary-directed around 1232 - h - HEADER, h up to 2^40); SCMP errors of all five kinds through ScionScmpPacket::try_encode_to_vec over every address/path combination with offending packets 0..9216 B placed around the truncation point; the SNAP gateway's create_scmp_error on inbound datagrams failing its check; DefaultEchoHandler on hand-built received packets (every SCMP type/code, truncations, wrong checksums, error quoting an error, odd addresses/paths, non-SCMP); pocketscion's local simulator with every error kind (round-robin), every StandardRoutingError::to_scmp_error variant (round-robin), local dispatch, and its router answering echo/traceroute requests (handle_scmp); pocketscion's ROUTING simulator on real paths of a 4-AS topology (ScionNetworkSim::simulate_traversal + handle_local_routing_action as in NetworkSimulator::dispatch): link down, corrupted MAC, expired, future timestamp, non-local delivery, no receiver, wrong ingress interface, unknown interface, mangled path, SCMP-error and echo-request offending packets, offending sizes below and above the truncation point -- quote compared with the packet as it stood at the router that raised the error; the socket receive loop with the real ScmpErrorHandler on mixed UDP/SCMP streams. Distinct by full case text; every case is non-trivial (it runs the implementation).",
     "assumptions": ["the structural path handed to the echo-handler model is the implementation's own path().to_model(), cross-checked per case against Wire.Codec.decode_header (view/model agreement is C12's subject)",
                     "received packets are decodable raw packets (bytes < 256, ScionRawPacketView::try_from_slice accepts the buffer): what the underlay guarantees to the socket",
                     "checksum VALUE of built packets is C03's theorem; here it is judged on the implementation's output by two independent RFC 1071 implementations (Rust harness, Coq Spec)"],
